@@ -83,6 +83,41 @@ Section Rd.
             | None => VBad end
         | None => VBad end
     | None => VBad end.
+  (* the same, for the generic tables (result type gval S) *)
+  Definition grun1 (A : Type) (ra : rd A) (f : A -> gval S) (l : list S) : gval S :=
+    match ra l with Some (a, []) => f a | _ => GBad end.
+  Definition grun2 (A B : Type) (ra : rd A) (rb : rd B) (f : A -> B -> gval S) (l : list S) : gval S :=
+    match ra l with
+    | Some (a, r) => match rb r with Some (b, []) => f a b | _ => GBad end
+    | None => GBad end.
+  Definition grun3 (A B C : Type) (ra : rd A) (rb : rd B) (rc : rd C)
+             (f : A -> B -> C -> gval S) (l : list S) : gval S :=
+    match ra l with
+    | Some (a, r) => match rb r with
+        | Some (b, r') => match rc r' with Some (c, []) => f a b c | _ => GBad end
+        | None => GBad end
+    | None => GBad end.
+  Definition grun4 (A B C D : Type) (ra : rd A) (rb : rd B) (rc : rd C) (rd' : rd D)
+             (f : A -> B -> C -> D -> gval S) (l : list S) : gval S :=
+    match ra l with
+    | Some (a, r) => match rb r with
+        | Some (b, r') => match rc r' with
+            | Some (c, r'') => match rd' r'' with Some (d, []) => f a b c d | _ => GBad end
+            | None => GBad end
+        | None => GBad end
+    | None => GBad end.
+  Definition grun0 (f : gval S) (l : list S) : gval S := match l with [] => f | _ => GBad end.
+  Definition grun5 (A B C D E : Type) (ra : rd A) (rb : rd B) (rc : rd C) (rd' : rd D) (re : rd E)
+             (f : A -> B -> C -> D -> E -> gval S) (l : list S) : gval S :=
+    match ra l with
+    | Some (a, r) => match rb r with
+        | Some (b, r') => match rc r' with
+            | Some (c, r'') => match rd' r'' with
+                | Some (d, r3) => match re r3 with Some (e, []) => f a b c d e | _ => GBad end
+                | None => GBad end
+            | None => GBad end
+        | None => GBad end
+    | None => GBad end.
 End Rd.
 
 (* index arguments travel as integral rationals *)
